@@ -248,8 +248,8 @@ pub fn seq_campaigns(property: &str) -> Vec<SeqCampaign> {
             rule: "generated histories dominated by stall-window bursts (as seq-bursts of C11), judged for the acknowledgement clauses only: the status an acknowledgement reads must be the status the command ended with on the worker, a write acknowledged Accepted must have been executed by the worker, and an explicit weight of an accepted put_or_update must be the key's charged weight as soon as the acknowledgement has resolved; non-trivial = a burst with >= 2 queued writes on one key" }],
         "C13" => vec![SeqCampaign { name: "seq-after-shutdown", params: profile("C05"), policy: Policy::default(), cases_quick: 1500, cases_thorough: 20_000, nt: |s| s.accepted_puts >= 1 && s.writes >= 3,
             rule: "generated histories; at the end shutdown() is called twice, then all six write entry points must return Err and all seven read variants must return absent / empty for every key the history wrote (and one it never wrote); non-trivial = the history had an accepted put and >= 3 writes before the shutdown" }],
-        "C15" => vec![SeqCampaign { name: "seq-access-accounting", params: profile("C02"), policy: Policy::default(), cases_quick: 3000, cases_thorough: 40_000, nt: |s| s.hits >= 5 && s.reads > s.hits,
-            rule: "generated read-heavy histories (all seven read variants, multi-key reads with duplicate and absent keys, pool 1-3, buffer 1-8) on one thread: after every op CacheHits == records buffered in the pool + AccessAdded + AccessDropped; non-trivial = >= 5 hits and at least one miss" }],
+        "C15" => vec![SeqCampaign { name: "seq-access-accounting", params: { let mut params = profile("C02"); params.prelude = 4; params }, policy: Policy::default(), cases_quick: 3000, cases_thorough: 40_000, nt: |s| s.hits >= 5 && s.reads > s.hits,
+            rule: "generated read-heavy histories (all seven read variants, multi-key reads with duplicate and absent keys, pool 1-3, buffer 1-8) on one thread; in half of the cases the same thread has built and read another cache with a different (larger) pool before, which in half of those stays alive beside the cache under test: after every op CacheHits == records buffered in the pool + AccessAdded + AccessDropped; non-trivial = >= 5 hits and at least one miss" }],
         "C16" => vec![main("seq-main", 3000, 60_000, nt_c16, RULE_C16)],
         "C17" => vec![
             main("seq-main", 4000, 80_000, nt_c17, RULE_C17),
